@@ -14,7 +14,9 @@ import (
 	rvrf "verifharness/ref/vrf"
 )
 
-func init() { core.Register(core.Check{ID: "C18", Level: "exploration", Run: runC18}) }
+func init() {
+	core.Register(core.Check{ID: "C18", Level: "exploration", Run: func(c *core.Ctx) { runC18(c); reentrancyPass(c, "C18") }})
+}
 
 type c18case struct {
 	pk, alpha, pi []byte
